@@ -10,10 +10,60 @@ From Boltons Require Import Lib.Prelude Spec.C18_Spec Model.C18_Model.
 
 Definition run_group := (list (option nat) * list step_obs)%type.
 
+(* ---- validation of a trusted part: the transcription of codecs.StreamReader ----
+   A reader case runs the REAL codecs.getreader('utf-8') over io.BytesIO(data) and
+   records, after every call, the value returned, the raw stream position and the
+   reader's own buffers; the model's reader must show exactly the same look-ahead.
+   These cases say nothing about boltons (holds = true): they tie Model.rd_read /
+   rd_readline / utf8_dec, on which the text theorems rest, to the standard library. *)
+Inductive rop :=
+| RRead (size chars : option nat)      (* reader.read(size, chars); None = -1 *)
+| RReadLine                            (* reader.readline() *)
+| RSeek0                               (* reader.seek(0): stream.seek(0) + reset() *)
+| RReset.                              (* reader.reset() *)
+
+Record robs := mkRO {
+  ro_ret : list N;                     (* characters returned ([] for seek/reset) *)
+  ro_pos : nat;                        (* reader.stream.tell() *)
+  ro_bytes : list N;                   (* reader.bytebuffer *)
+  ro_pending : list N;                 (* ''.join(linebuffer) if linebuffer else charbuffer *)
+  ro_nlines : nat                      (* len(linebuffer), 0 if None *)
+}.
+
+Definition robs_eqb (a b : robs) : bool :=
+  data_eqb (ro_ret a) (ro_ret b) && Nat.eqb (ro_pos a) (ro_pos b) && data_eqb (ro_bytes a) (ro_bytes b) &&
+  data_eqb (ro_pending a) (ro_pending b) && Nat.eqb (ro_nlines a) (ro_nlines b).
+
+Definition reader_step (e : encfile) (op : rop) : encfile * list N :=
+  match op with
+  | RRead size chars => rd_read e size chars
+  | RReadLine => rd_readline e
+  | RSeek0 => (mkEF (f_seek0 (ef_stream e) 0) (rd_reset (ef_rd e)), [])
+  | RReset => (mkEF (ef_stream e) (rd_reset (ef_rd e)), [])
+  end.
+
+Definition reader_view (e : encfile) (ret : list N) : robs :=
+  let rd := ef_rd e in
+  mkRO ret (f_tell (ef_stream e)) (rd_bytes rd)
+       (match rd_lines rd with Some ls => concat ls | None => rd_chars rd end)
+       (match rd_lines rd with Some ls => length ls | None => 0 end).
+
+Fixpoint reader_run (e : encfile) (ops : list rop) : list robs :=
+  match ops with
+  | [] => []
+  | op :: r => let '(e', ret) := reader_step e op in reader_view e' ret :: reader_run e' r
+  end.
+
+Definition reader_agree (data : list N) (steps : list (rop * robs)) : bool :=
+  let e0 := mkEF (mkRF data 0) rd_fresh in
+  list_eqb robs_eqb (reader_run e0 (map fst steps)) (map snd steps) &&
+  rd_ok (ef_rd (fold_left (fun e op => fst (reader_step e op)) (map fst steps) e0)).
+
 Inductive c18_case :=
 | CBytes (ops : list fop) (runs : list run_group)
 | CString (chunk : nat) (ops : list fop) (runs : list run_group)
-| CMfr (contents : list (list N)) (ops : list mop) (obs : list fobs).
+| CMfr (contents : list (list N)) (ops : list mop) (obs : list fobs)
+| CReader (data : list N) (steps : list (rop * robs)).
 
 Definition obs_list_eqb := list_eqb step_obs_eqb.
 
@@ -70,12 +120,14 @@ Definition c18_verdict (c : c18_case) : verdict :=
        | None => false
        end,
        false)
+  | CReader data steps => (reader_agree data steps, true, false)
   end.
 
 (* what the model and the reference say, for replay files *)
 Inductive c18_expl :=
 | EFile (reference : option (list step_obs)) (model : list (nat * list step_obs))
-| EMfr (reference : option (list fobs)) (model : list fobs).
+| EMfr (reference : option (list fobs)) (model : list fobs)
+| EReader (model : list robs).
 
 Definition maxes (runs : list run_group) : list nat :=
   flat_map (fun g : run_group => flat_map (fun m => match m with Some x => [x] | None => [] end) (fst g)) runs.
@@ -88,4 +140,5 @@ Definition c18_explain (c : c18_case) : c18_expl :=
       EFile (ref_run KString rf_empty ops) (map (fun max => (max, ss_run (ss_init max chunk) ops)) (maxes runs))
   | CMfr contents ops _ =>
       EMfr (mref_run (mkRF (concat contents) 0) ops) (mfr_run (mfr_init contents) ops)
+  | CReader data steps => EReader (reader_run (mkEF (mkRF data 0) rd_fresh) (map fst steps))
   end.
